@@ -1307,7 +1307,12 @@ fn render_type_arguments(arguments: &[Type]) -> String {
 }
 
 fn render_tuple_type(tuple_type: &TupleType) -> String {
-    let name = tuple_type.name.clone().unwrap_or_default();
+    let mut name = tuple_type.name.clone().unwrap_or_default();
+    // A lower-case name comes from the spread-update form `'alias[..., field: T]` (a tuple name is
+    // upper-case): it is a type name and takes its `'` back.
+    if name.starts_with(|c: char| c.is_ascii_lowercase()) {
+        name.insert(0, '\'');
+    }
     if tuple_type.fields.is_empty() {
         return if tuple_type.is_partial {
             format!("{}()", name)
